@@ -2,7 +2,7 @@
    recordstore.CommonPath, the real recorder, recordstore.FindSegments on a real directory tree,
    the real API handler onRecordingDeleteSegment and the real path manager entry points. *)
 From Coq Require Import List ZArith Bool.
-Require Import MTX.Lib.PathClean MTX.Model.C26_RecPath MTX.Model.C06_PathName.
+Require Import MTX.Lib.PathClean MTX.Model.C26_RecPath MTX.Model.C06_PathName MTX.Model.C06_Listing.
 Import ListNotations.
 Local Open Scope Z_scope.
 
@@ -10,6 +10,11 @@ Local Open Scope Z_scope.
 Definition inst (u ns off : Z) : instant := mkI u ns off.
 
 Inductive del_obs := ODInvalid | ODNoConf | ODEscapes | ODRemove (p : list Z).
+
+(* one path configuration of a FindAllPathsWithSegments call: regexp = (conf.Regexp != nil), key = conf.Name,
+   f/ts = RecordPath/RecordFormat, tbl = the regexp oracle: (name, conf.Regexp matches name) for every
+   name placed in the tree, decoded by the real Path.Decode or returned *)
+Inductive lc_obs := LC (regexp : bool) (key f : list Z) (ts : bool) (tbl : list (list Z * bool)).
 
 Inductive case :=
   (* IsValidPathName(n): 0 = nil, 1..5 = the five errors in source order *)
@@ -30,7 +35,28 @@ Inductive case :=
   (* pathManager.{FindPathConf, Describe, AddReader, AddPublisher}(name n): resolves = conf.FindPathConf
      succeeds on the same configuration; accepted = no error from all four; created = the path name
      the manager created when it accepted *)
-| KEntry (n : list Z) (resolves accepted : bool) (created : list Z).
+| KEntry (n : list Z) (resolves accepted : bool) (created : list Z)
+  (* FindAllPathsWithSegments(confs) with working directory cwd over a tree whose regular files are
+     `files` (sorted = WalkDir order); out = the returned names *)
+| KList (loff : Z) (cwd : list Z) (confs : list lc_obs) (files : list (list Z)) (out : list (list Z)).
+
+Definition tbl_match (tbl : list (list Z * bool)) (p : list Z) : bool :=
+  existsb (fun e => bytes_eqb (fst e) p && snd e) tbl.
+
+Definition to_lconf (c : lc_obs) : lconf :=
+  match c with
+  | LC true _ f ts tbl => LRegexp (tbl_match tbl) f ts
+  | LC false key f ts _ => LFixed key f ts
+  end.
+
+(* the regular files WalkDir(root) visits: WalkDir("") fails at once *)
+Definition walk_files (files : list (list Z)) (root : list Z) : list (list Z) :=
+  match root with
+  | [] => []
+  | _ => filter (is_prefix (if bytes_eqb root [47] then root else root ++ [47])) files
+  end.
+
+Definition mem_name (p : list Z) (l : list (list Z)) : bool := existsb (bytes_eqb p) l.
 
 Definition verr_code (e : option verr) : Z :=
   match e with None => 0 | Some EEmpty => 1 | Some ELead => 2 | Some ETrail => 3 | Some EChars => 4 | Some EDots => 5 end.
@@ -68,6 +94,9 @@ Definition mismatch (c : case) : bool :=
             && bytes_eqb (abs cwd (common_path f)) base_abs)
   | KEntry n resolves accepted created =>
       negb (Bool.eqb (pm_accepts n resolves) accepted)
+  | KList loff cwd confs files out =>
+      let m := find_all (walk_files files) loff cwd (map to_lconf confs) in
+      negb (forallb (fun p => mem_name p out) m && forallb (fun p => mem_name p m) out)
   end.
 
 (* ---- the property, restated on the observed values only ---- *)
@@ -111,4 +140,12 @@ Definition spec_fail (c : case) : bool :=
       end
   | KEntry n resolves accepted created =>
       accepted && (negb (shape_ok n) || negb (bytes_eqb created n))
+  | KList loff cwd confs files out =>
+      (* every listed name has the documented shape and matches one of the configurations: the key of a
+         non-regexp one, or the regular expression (oracle table) of a regexp one *)
+      existsb (fun p => negb (shape_ok p)
+                        || negb (existsb (fun c => match c with
+                                                   | LC true _ _ _ tbl => tbl_match tbl p
+                                                   | LC false key _ _ _ => bytes_eqb key p
+                                                   end) confs)) out
   end.
